@@ -39,4 +39,376 @@ theorem curry_eq (m : Tree) (args : List Tree) :
   simp only [curry, h, Castable.toTree, Castable.listToTree, toTree_fixedArgsCastable, Tree.ofList,
     Tree.nil, NULL_BLOB]
 
+
+/-! ### `==` / `!=` and `at` -/
+
+theorem progNe_eq_false (x : Option Tree) (kw : Bytes) :
+    progNe x kw = false ↔ x = some (.atom kw) := by
+  cases x with
+  | none => simp [progNe]
+  | some t => simp [progNe, progEq]
+
+theorem progNe_some_atom (kw : Bytes) : progNe (some (.atom kw)) kw = false :=
+  (progNe_eq_false _ _).mpr rfl
+
+theorem progNe_pair (l r : Tree) (kw : Bytes) : progNe (some (.pair l r)) kw = true := by
+  simp [progNe, progEq]
+
+theorem size_pair (l r : Tree) : (Tree.pair l r).size = l.size + r.size + 1 := by
+  simp only [Tree.size, Tree.pairs, Tree.atoms]; omega
+
+theorem size_pos (t : Tree) : 0 < t.size := by
+  cases t <;> simp only [Tree.size, Tree.pairs, Tree.atoms] <;> omega
+
+/-- the three checks of `uncurry` (outer and inner) pin the shape `(kw (q . y) w)` -/
+theorem shape_of_checks (c : Tree) (kw : Bytes)
+    (h1 : progNe (atPos c [.f]) kw = false)
+    (h2 : progNe (atPos c [.r, .f, .f]) Q_KW = false)
+    (h3 : progNe (atPos c [.r, .r, .r]) NULL = false) :
+    ∃ y w, c = .pair (.atom kw) (.pair (.pair (.atom Q_KW) y) (.pair w (.atom NULL))) := by
+  rw [progNe_eq_false] at h1 h2 h3
+  rcases c with _ | ⟨x, _ | ⟨_ | ⟨q, y⟩, _ | ⟨w, n⟩⟩⟩ <;> simp [atPos] at h1 h2 h3
+  subst h1 h2 h3
+  exact ⟨y, w, rfl⟩
+
+theorem checks_of_shape (kw : Bytes) (y w : Tree) :
+    let c := Tree.pair (.atom kw) (.pair (.pair (.atom Q_KW) y) (.pair w (.atom NULL)))
+    progNe (atPos c [.f]) kw = false ∧ progNe (atPos c [.r, .f, .f]) Q_KW = false ∧
+      progNe (atPos c [.r, .r, .r]) NULL = false ∧ atPos c [.r, .f, .r] = some y ∧
+      atPos c [.r, .r, .f] = some w := by
+  simp [atPos, progNe_some_atom]
+
+/-! ### the loop -/
+
+/-- one iteration on a well-shaped `core` -/
+theorem loop_step (sexp fn y w : Tree) (fuel : Nat) (items : List Tree) :
+    uncurryLoop sexp fn (fuel + 1)
+      (some (.pair (.atom C_KW) (.pair (.pair (.atom Q_KW) y) (.pair w (.atom NULL))))) items =
+    uncurryLoop sexp fn fuel (some w) (items ++ [y]) := by
+  obtain ⟨h1, h2, h3, h4, h5⟩ := checks_of_shape C_KW y w
+  rw [uncurryLoop]
+  simp only [progNe_pair, if_true, h1, h2, h3, h4, h5, Bool.or_self, Bool.false_eq_true, if_false]
+
+theorem loop_exit (sexp fn : Tree) (fuel : Nat) (items : List Tree) :
+    uncurryLoop sexp fn (fuel + 1) (some (.atom ONE)) items = .ok (fn, some items) := by
+  rw [uncurryLoop]
+  simp only [progNe_some_atom, Bool.false_eq_true, if_false]
+
+theorem loop_fixedArgs (sexp fn : Tree) (args : List Tree) :
+    ∀ (fuel : Nat) (items : List Tree), (fixedArgsTree args).size ≤ fuel →
+      uncurryLoop sexp fn fuel (some (fixedArgsTree args)) items = .ok (fn, some (items ++ args)) := by
+  induction args with
+  | nil =>
+    intro fuel items h
+    have := size_pos (fixedArgsTree [])
+    obtain ⟨k, rfl⟩ : ∃ k, fuel = k + 1 := ⟨fuel - 1, by omega⟩
+    simp only [fixedArgsTree, loop_exit, List.append_nil]
+  | cons a as ih =>
+    intro fuel items h
+    simp only [fixedArgsTree, Tree.ofList, Tree.nil] at h ⊢
+    obtain ⟨k, rfl⟩ : ∃ k, fuel = k + 1 := ⟨fuel - 1, by simp only [size_pair] at h; omega⟩
+    have hN : ([] : Bytes) = NULL := by decide
+    rw [hN, loop_step, ih k _ (by simp only [size_pair] at h; omega)]
+    simp
+
+/-- (d) `uncurry` inverts `curry` (literal version: no assert fires, no fuel runs out). -/
+theorem uncurryE_curry (m : Tree) (args : List Tree) :
+    uncurryE (curry m args) = .ok (m, some args) := by
+  rw [curry_eq]
+  have hN : ([] : Bytes) = NULL := by decide
+  simp only [Tree.ofList, Tree.nil, hN]
+  obtain ⟨h1, h2, h3, h4, h5⟩ := checks_of_shape A_KW m (fixedArgsTree args)
+  unfold uncurryE
+  simp only [h1, h2, h3, h4, h5, Bool.or_self, Bool.false_eq_true, if_false]
+  rw [loop_fixedArgs _ _ _ _ _ (by simp only [size_pair]; omega)]
+  simp
+
+/-- (d) `uncurry (curry m args) = (m, some args)` -/
+theorem uncurry_curry (m : Tree) (args : List Tree) : uncurry (curry m args) = (m, some args) := by
+  simp only [uncurry, uncurryE_curry]
+
+/-! ### the asserts of `uncurry` are unreachable -/
+
+theorem loop_ok (sexp fn : Tree) :
+    ∀ (fuel : Nat) (c : Tree) (items : List Tree), c.size ≤ fuel →
+      ∃ r, uncurryLoop sexp fn fuel (some c) items = .ok r := by
+  intro fuel
+  induction fuel with
+  | zero => intro c _ h; have := size_pos c; omega
+  | succ k ih =>
+    intro c items h
+    rw [uncurryLoop]
+    by_cases hne : progNe (some c) ONE = true
+    · simp only [hne, if_true]
+      by_cases h1 : progNe (atPos c [.f]) C_KW = true
+      · simp only [h1, Bool.true_or, if_true]; exact ⟨_, rfl⟩
+      by_cases h2 : progNe (atPos c [.r, .f, .f]) Q_KW = true
+      · simp only [h2, Bool.true_or, Bool.or_true, if_true]; exact ⟨_, rfl⟩
+      by_cases h3 : progNe (atPos c [.r, .r, .r]) NULL = true
+      · simp only [h3, Bool.or_true, if_true]; exact ⟨_, rfl⟩
+      simp only [Bool.not_eq_true] at h1 h2 h3
+      obtain ⟨y, w, rfl⟩ := shape_of_checks c C_KW h1 h2 h3
+      obtain ⟨-, -, -, h4, h5⟩ := checks_of_shape C_KW y w
+      simp only [h1, h2, h3, h4, h5, Bool.or_self, Bool.false_eq_true, if_false]
+      exact ih w _ (by simp only [size_pair] at h; omega)
+    · simp only [hne]; exact ⟨_, rfl⟩
+
+theorem uncurryE_ok (p : Tree) : ∃ r, uncurryE p = .ok r := by
+  unfold uncurryE
+  by_cases h1 : progNe (atPos p [.f]) A_KW = true
+  · simp only [h1, Bool.true_or, if_true]; exact ⟨_, rfl⟩
+  by_cases h2 : progNe (atPos p [.r, .f, .f]) Q_KW = true
+  · simp only [h2, Bool.true_or, Bool.or_true, if_true]; exact ⟨_, rfl⟩
+  by_cases h3 : progNe (atPos p [.r, .r, .r]) NULL = true
+  · simp only [h3, Bool.or_true, if_true]; exact ⟨_, rfl⟩
+  simp only [Bool.not_eq_true] at h1 h2 h3
+  obtain ⟨y, w, rfl⟩ := shape_of_checks p A_KW h1 h2 h3
+  obtain ⟨-, -, -, h4, h5⟩ := checks_of_shape A_KW y w
+  simp only [h1, h2, h3, h4, h5, Bool.or_self, Bool.false_eq_true, if_false]
+  exact loop_ok _ _ _ w _ (by simp only [size_pair]; omega)
+
+/-- No `assert` of `CurryTreehasher.uncurry` can fire and the loop terminates within the fuel:
+the literal transcription always returns normally, with the value of the total `uncurry`. -/
+theorem uncurry_no_assert (p : Tree) : uncurryE p = .ok (uncurry p) := by
+  obtain ⟨r, hr⟩ := uncurryE_ok p
+  simp only [uncurry, hr]
+
+
+/-! ### converse: only curried programs uncurry -/
+
+theorem loop_some (sexp fn : Tree) :
+    ∀ (fuel : Nat) (c : Tree) (items : List Tree) (m : Tree) (args : List Tree),
+      uncurryLoop sexp fn fuel (some c) items = .ok (m, some args) →
+      m = fn ∧ ∃ rest, args = items ++ rest ∧ c = fixedArgsTree rest := by
+  intro fuel
+  induction fuel with
+  | zero => intro c items m args h; simp [uncurryLoop] at h
+  | succ k ih =>
+    intro c items m args h
+    rw [uncurryLoop] at h
+    by_cases hne : progNe (some c) ONE = true
+    · simp only [hne, if_true] at h
+      by_cases h1 : progNe (atPos c [.f]) C_KW = true
+      · simp [h1] at h
+      by_cases h2 : progNe (atPos c [.r, .f, .f]) Q_KW = true
+      · simp [h2] at h
+      by_cases h3 : progNe (atPos c [.r, .r, .r]) NULL = true
+      · simp [h3] at h
+      simp only [Bool.not_eq_true] at h1 h2 h3
+      obtain ⟨y, w, rfl⟩ := shape_of_checks c C_KW h1 h2 h3
+      obtain ⟨-, -, -, h4, h5⟩ := checks_of_shape C_KW y w
+      simp only [h1, h2, h3, h4, h5, Bool.or_self, Bool.false_eq_true, if_false] at h
+      obtain ⟨hm, rest, hargs, hw⟩ := ih w _ m args h
+      refine ⟨hm, y :: rest, by simp [hargs], ?_⟩
+      have hN : NULL = ([] : Bytes) := by decide
+      simp only [fixedArgsTree, Tree.ofList, Tree.nil, hw, hN]
+    · simp only [hne] at h
+      simp only [Bool.not_eq_true] at hne
+      have hc := (progNe_eq_false _ _).mp hne
+      simp only [Option.some.injEq] at hc
+      simp only [Bool.false_eq_true, if_false, Except.ok.injEq, Prod.mk.injEq,
+        Option.some.injEq] at h
+      exact ⟨h.1.symm, [], by simp [h.2], by simp [hc, fixedArgsTree]⟩
+
+/-- (e) If `uncurry` reports a curried program then the input *is* `curry m args`
+(structural `==`). -/
+theorem uncurry_spec (p m : Tree) (args : List Tree) (h : uncurry p = (m, some args)) :
+    p = curry m args := by
+  have hE := uncurry_no_assert p
+  rw [h] at hE
+  unfold uncurryE at hE
+  by_cases h1 : progNe (atPos p [.f]) A_KW = true
+  · simp [h1] at hE
+  by_cases h2 : progNe (atPos p [.r, .f, .f]) Q_KW = true
+  · simp [h2] at hE
+  by_cases h3 : progNe (atPos p [.r, .r, .r]) NULL = true
+  · simp [h3] at hE
+  simp only [Bool.not_eq_true] at h1 h2 h3
+  obtain ⟨y, w, rfl⟩ := shape_of_checks p A_KW h1 h2 h3
+  obtain ⟨-, -, -, h4, h5⟩ := checks_of_shape A_KW y w
+  simp only [h1, h2, h3, h4, h5, Bool.or_self, Bool.false_eq_true, if_false] at hE
+  obtain ⟨hm, rest, hargs, hw⟩ := loop_some _ _ _ _ _ _ _ hE
+  simp only [List.nil_append] at hargs
+  have hN : NULL = ([] : Bytes) := by decide
+  rw [curry_eq, hm, hargs, hw]
+  simp only [Tree.ofList, Tree.nil, hN]
+
+/-- `uncurry` recognises exactly the curried programs. -/
+theorem uncurry_eq_some_iff (p m : Tree) (args : List Tree) :
+    uncurry p = (m, some args) ↔ p = curry m args :=
+  ⟨uncurry_spec p m args, fun h => h ▸ uncurry_curry m args⟩
+
+/-- inside the loop a failure returns `(sexp, None)` -/
+theorem loop_none (sexp fn : Tree) :
+    ∀ (fuel : Nat) (c : Option Tree) (items : List Tree) (m : Tree),
+      uncurryLoop sexp fn fuel c items = .ok (m, none) → m = sexp := by
+  intro fuel
+  induction fuel with
+  | zero => intro c items m h; simp [uncurryLoop] at h
+  | succ k ih =>
+    intro c items m h
+    rw [uncurryLoop.eq_def] at h
+    simp only [] at h
+    split at h
+    · split at h
+      · simp at h
+      · split at h
+        · simp only [Except.ok.injEq, Prod.mk.injEq, and_true] at h; exact h.symm
+        · split at h
+          · simp at h
+          · exact ih _ _ _ h
+    · simp at h
+
+/-- … and returns its input unchanged otherwise. -/
+theorem uncurry_none (p m : Tree) (h : uncurry p = (m, none)) : m = p := by
+  have hE := uncurry_no_assert p
+  rw [h] at hE
+  unfold uncurryE at hE
+  split at hE
+  · simp only [Except.ok.injEq, Prod.mk.injEq, and_true] at hE
+    exact hE.symm
+  · split at hE
+    · simp at hE
+    · exact loop_none _ _ _ _ _ _ hE
+
+/-! ### `curry_hash` = tree hash of the curried program, for every hash function -/
+
+section
+variable (shaAtom : Bytes → Bytes) (shaPair : Bytes → Bytes → Bytes)
+
+theorem treeHashWith_fixedArgs (args : List Tree) :
+    treeHashWith shaAtom shaPair (fixedArgsTree args) =
+      curriedValuesTreeHash shaAtom shaPair (args.map (treeHashWith shaAtom shaPair)) := by
+  induction args with
+  | nil => rfl
+  | cons a as ih =>
+    have hN : ([] : Bytes) = NULL := by decide
+    simp only [fixedArgsTree, Tree.ofList, Tree.nil, treeHashWith, List.map_cons,
+      curriedValuesTreeHash, ih, cKwTreehash, qKwTreehash, nullTreehash, hN]
+
+theorem checkHashedArguments_ok (hs : List Bytes) (h : ∀ x ∈ hs, x.length = 32) :
+    checkHashedArguments hs = .ok () := by
+  induction hs with
+  | nil => rfl
+  | cons x xs ih =>
+    have hx := h x (by simp)
+    simp only [checkHashedArguments, hx, bne_self_eq_false, Bool.false_eq_true, if_false]
+    exact ih (fun y hy => h y (by simp [hy]))
+
+theorem checkHashedArguments_error (hs : List Bytes) (h : ∃ x ∈ hs, x.length ≠ 32) :
+    checkHashedArguments hs = .error .ValueError := by
+  induction hs with
+  | nil => simp at h
+  | cons x xs ih =>
+    by_cases hx : x.length = 32
+    · simp only [checkHashedArguments, hx, bne_self_eq_false, Bool.false_eq_true, if_false]
+      apply ih
+      obtain ⟨y, hy, hy32⟩ := h
+      rcases List.mem_cons.mp hy with rfl | hy
+      · exact absurd hx hy32
+      · exact ⟨y, hy, hy32⟩
+    · simp [checkHashedArguments, hx]
+
+/-- `curry_and_treehash` on the hash of `(q . mod)` and the hashes of the arguments is the tree
+hash of the curried program. -/
+theorem curryAndTreehash_eq (m : Tree) (args : List Tree)
+    (h32 : ∀ a ∈ args, (treeHashWith shaAtom shaPair a).length = 32) :
+    curryAndTreehash shaAtom shaPair
+        (treeHashWith shaAtom shaPair (.pair (.atom Q_KW) m))
+        (args.map (treeHashWith shaAtom shaPair)) =
+      .ok (treeHashWith shaAtom shaPair (curry m args)) := by
+  have hchk := checkHashedArguments_ok (args.map (treeHashWith shaAtom shaPair))
+    (by intro x hx; obtain ⟨a, ha, rfl⟩ := List.mem_map.mp hx; exact h32 a ha)
+  have hN : ([] : Bytes) = NULL := by decide
+  simp only [curryAndTreehash, hchk, curry_eq, Tree.ofList, Tree.nil, treeHashWith,
+    treeHashWith_fixedArgs, aKwTreehash, nullTreehash, hN]
+
+/-- (f) `Program.curry_hash(*[a.tree_hash() for a in args])` is
+`Program.curry(*args).tree_hash()` — for EVERY pair of hash functions
+`shatree_atom` / `shatree_pair` (whose outputs on the arguments are 32 bytes long: the
+`len(arg) != 32` check). -/
+theorem curryHash_eq_treeHash (m : Tree) (args : List Tree)
+    (h32 : ∀ a ∈ args, (treeHashWith shaAtom shaPair a).length = 32) :
+    curryHash shaAtom shaPair m (args.map (treeHashWith shaAtom shaPair)) =
+      .ok (treeHashWith shaAtom shaPair (curry m args)) := by
+  have := curryAndTreehash_eq shaAtom shaPair m args h32
+  simpa only [curryHash, calculateHashOfQuotedModHash, qKwTreehash, treeHashWith] using this
+
+/-- the `ValueError` branch: some argument hash is not 32 bytes long -/
+theorem curryHash_valueError (m : Tree) (hs : List Bytes) (h : ∃ x ∈ hs, x.length ≠ 32) :
+    curryHash shaAtom shaPair m hs = .error .ValueError := by
+  simp only [curryHash, curryAndTreehash, checkHashedArguments_error hs h]
+
+end
+
+/-! ### the real hash -/
+
+theorem sha256_length (msg : Bytes) : (Clvm.Hash.sha256 msg).length = 32 := by
+  simp [Clvm.Hash.sha256, Clvm.Hash.Sha256.digest, Clvm.Hash.Sha256.be32]
+
+theorem treeHash_length (t : Tree) : (TreeHash.treeHash t).length = 32 := by
+  cases t <;> simp only [TreeHash.treeHash, sha256_length]
+
+/-- the Python `shatree_atom` / `shatree_pair` are the Rust `tree_hash_atom` / `tree_hash_pair` -/
+theorem shatree_eq : TreeHash.shatreeAtom = TreeHash.treeHashAtom ∧
+    TreeHash.shatreePair = TreeHash.treeHashPair := ⟨rfl, rfl⟩
+
+/-- the generic tree hash instantiated with the real functions is the specification `treeHash` -/
+theorem treeHashWith_real :
+    treeHashWith TreeHash.treeHashAtom TreeHash.treeHashPair = TreeHash.treeHash := by
+  funext t
+  induction t with
+  | atom b => simp [treeHashWith, TreeHash.treeHash, TreeHash.treeHashAtom]
+  | pair l r ihl ihr =>
+    simp [treeHashWith, TreeHash.treeHash, TreeHash.treeHashPair, ihl, ihr]
+
+theorem treeHashWith_py :
+    treeHashWith TreeHash.shatreeAtom TreeHash.shatreePair = TreeHash.treeHash :=
+  treeHashWith_real
+
+/-- (f), real hash, no hypothesis: `m.curry_hash(*[a.tree_hash() for a in args])
+== m.curry(*args).tree_hash()`. -/
+theorem curryHash_real (m : Tree) (args : List Tree) :
+    curryHash TreeHash.treeHashAtom TreeHash.treeHashPair m (args.map TreeHash.treeHash) =
+      .ok (TreeHash.treeHash (curry m args)) := by
+  have := curryHash_eq_treeHash TreeHash.treeHashAtom TreeHash.treeHashPair m args
+    (by intro a _; rw [treeHashWith_real]; exact treeHash_length a)
+  rwa [treeHashWith_real] at this
+
+theorem curryHash_py (m : Tree) (args : List Tree) :
+    curryHash TreeHash.shatreeAtom TreeHash.shatreePair m (args.map TreeHash.treeHash) =
+      .ok (TreeHash.treeHash (curry m args)) :=
+  curryHash_real m args
+
+/-! ### the definitions compute -/
+
+example : A_KW = [2] ∧ Q_KW = [1] ∧ C_KW = [4] ∧ ONE = [1] ∧ NULL = [] := by decide
+
+/-- `(a (q . 0x63) (c (q . 0x0a) (c (q . (0x0b . 0x0c)) 1)))` -/
+example : curry (.atom [0x63]) [.atom [0x0a], .pair (.atom [0x0b]) (.atom [0x0c])] =
+    Tree.ofList [.atom [2], .pair (.atom [1]) (.atom [0x63]),
+      Tree.ofList [.atom [4], .pair (.atom [1]) (.atom [0x0a]),
+        Tree.ofList [.atom [4], .pair (.atom [1]) (.pair (.atom [0x0b]) (.atom [0x0c])),
+          .atom [1]]]] := by decide
+
+example : curry (.atom [0x63]) [] =
+    Tree.ofList [.atom [2], .pair (.atom [1]) (.atom [0x63]), .atom [1]] := by decide
+
+example : uncurry (curry (.atom [0x63]) [.atom [0x0a], .pair (.atom [0x0b]) (.atom [0x0c])]) =
+    (.atom [0x63], some [.atom [0x0a], .pair (.atom [0x0b]) (.atom [0x0c])]) := by decide
+
+/-- not curried: an atom, a plain list, and a curry whose tail is not `1` -/
+example : uncurry (.atom [0x63]) = (.atom [0x63], none) := by decide
+example : uncurry (Tree.ofList [.atom [2], .atom [3], .atom [4]]) =
+    (Tree.ofList [.atom [2], .atom [3], .atom [4]], none) := by decide
+example : uncurry (Tree.ofList [.atom [2], .pair (.atom [1]) (.atom [0x63]), .atom [5]]) =
+    (Tree.ofList [.atom [2], .pair (.atom [1]) (.atom [0x63]), .atom [5]], none) := by decide
+/-- a curry of zero arguments is `(mod, [])`, not `None` -/
+example : uncurry (Tree.ofList [.atom [2], .pair (.atom [1]) (.atom [0x63]), .atom [1]]) =
+    (.atom [0x63], some []) := by decide
+
+example : atPos (Tree.ofList [.atom [10], .atom [20]]) [.r, .f] = some (.atom [20]) := by decide
+example : atPos (.atom [10]) [.r, .r] = none := by decide
+example : atPos (.atom [10]) [] = some (.atom [10]) := by decide
+
 end Clvm.Py.CurryLemmas
